@@ -755,6 +755,34 @@ func c08AtomicCheckThenStore(c *Ctx) {
 					}
 				}
 			}
+			// mirror-after-write: in a function that also writes to the database (an error-returning core.Write*/Put/Delete call),
+			// the in-memory mirror is updated only after that write succeeded (seeded change C08-N stores the new L1 head into an
+			// atomic mirror before core.WriteL1Head: on a write fault every reader is served a head that was never recorded)
+			for _, w := range sitesOf(fn) {
+				wn := ""
+				if w.Callee != nil {
+					wn = w.Callee.Name()
+				} else if w.Method != nil {
+					wn = w.Method.Name()
+				}
+				isWrite := (w.Callee != nil && pkgRelOf(w.Callee) == "core" && strings.HasPrefix(wn, "Write")) || ((wn == "Put" || wn == "Delete") && w.Recv != nil && strings.Contains(w.Recv.Type().String(), "db."))
+				if !isWrite {
+					continue
+				}
+				sig := w.Instr.Common().Signature()
+				if sig == nil || sig.Results().Len() == 0 || sig.Results().At(sig.Results().Len()-1).Type().String() != "error" {
+					continue
+				}
+				wv, isVal := w.Instr.(ssa.Value)
+				okm := false
+				if isVal && dominatesInstr(w.Instr, st.Instr) {
+					et := term(wv)
+					if o, _ := everyDisjunctHas(p.mustHoldAt(st.Instr), []string{"^!", et, "!= nil"}, []string{et + " == nil"}); o {
+						okm = true
+					}
+				}
+				c.check(okm, "atomic-check-then-store", qname(fn)+": "+fld+".Store after "+wn, p.Pos(st.Pos()), "the in-memory mirror is updated after the database write succeeded", "the in-memory mirror "+fld+" is updated in a function that writes the same fact to the database ("+wn+") but not after that write has succeeded: when the write fails, readers are served a value the node never recorded (and lose it on restart)")
+			}
 			c.check(bad == "", "atomic-check-then-store", qname(fn)+": "+fld+".Store", p.Pos(st.Pos()), "not conditional on a Load of the same holder", "Store on "+fld+" is executed under a condition computed from "+fld+".Load() ("+bad+"): check-then-act — a concurrent writer's newer value is overwritten by the value this path read earlier; use CompareAndSwap")
 		}
 	}
